@@ -147,7 +147,7 @@ func VH_C16_static() {
 	}
 	// (i) other methods: the file system is not touched, nothing is written
 	if method != "GET" && method != "HEAD" {
-		vx.Assert(len(vfs.opened) == 0 && spy.headers == 0 && spy.writes == 0, "C16: only GET and HEAD are answered")
+		vx.Assert(len(vfs.opened) == 0 && spy.headers == 0 && spy.writes == 0 && len(spy.Header()) == 0, "C16: only GET and HEAD are answered")
 		vx.Assert(reachedNext, "C16: the rest of the chain handles the request")
 		vx.Observe("static", "other-method", len(vfs.opened))
 		return
@@ -162,7 +162,7 @@ func VH_C16_static() {
 		}
 	}
 	if !under {
-		vx.Assert(len(vfs.opened) == 0 && spy.headers == 0 && spy.writes == 0, "C16: paths outside the prefix (or not at a segment boundary) are not served")
+		vx.Assert(len(vfs.opened) == 0 && spy.headers == 0 && spy.writes == 0 && len(spy.Header()) == 0, "C16: paths outside the prefix (or not at a segment boundary) are not served")
 		vx.Assert(reachedNext, "C16: the rest of the chain handles the request")
 		vx.Observe("static", "outside-prefix", len(vfs.opened))
 		return
@@ -230,6 +230,7 @@ func VH_C16_static() {
 	default:
 		// (iv) cannot serve: silent
 		vx.Assert(spy.headers == 0 && spy.writes == 0 && !served && !redirected, "C16: a missing file, a failing Stat or a directory without a regular index writes nothing")
+		vx.Assert(len(spy.Header()) == 0, "C16: ... and leaves no response header behind for the rest of the chain")
 		vx.Assert(reachedNext, "C16: ... so the rest of the chain handles the request")
 	}
 	vx.Observe("static", method, upath, vfs.opened, spy.firstCode, spy.bytes)
